@@ -59,13 +59,15 @@ def plan(tier):
     t = 400 if tier == "quick" else 900
     wparts = ["0:0,1:0", "0:1,1:0"] + [f"0:{d},1:{n},2:{k}" for d in range(2) for n in (1, 2) for k in range(6)]
     tparts = [f"0:0,1:{k}" for k in range(14)] + [f"0:1,1:{o}" for o in range(9)]
-    aparts = [f"0:{k}" for k in range(4)] if tier == "quick" else [f"0:{n},1:{k}" for n in range(2) for k in range(4)]
+    aparts = [f"0:{k}" for k in range(4)] if tier == "quick" else \
+        [f"0:0,1:{k}" for k in range(4)] + [f"0:1,1:{k},2:{v}" for k in range(4) for v in range(7)]  # two table entries: split on the first value kind
     return [
         K("conformance", "harness.walk", "conformance_job", "shim builders vs real mypy", timeout=1200),
         K("attr_conformance", "harness.c01", "attribute_conformance_job", "attribute-annotation builders vs real mypy", timeout=600),
         K("k_placeholder_paths", "kjobs.c01", "placeholder_paths", "_add_to_imports -> _create_outside_package_class: no recorded name makes the path arithmetic raise"),
         CH("aliases", "harness.c01", "aliases", aparts, timeout=t, desc="_get_aliases never raises",
-           symbolic="package and module names (str over {a,b}, <= 2 chars)", stubs=["mypy node/type classes -> shim"]),
+           symbolic="package and module names (str over {a,b}, <= 2 chars)", stubs=["mypy node/type classes -> shim"],
+           allow_empty=tier == "thorough"),
         CH("walker", "harness.walk", "no_exception", wparts, timeout=t, desc="walker + visitor never raise", stubs=["mypy -> shim"]),
         CH("defaults", "harness.c01", "defaults", [f"0:{a},1:{k}" for a in range(2) for k in range(12)], timeout=t,
            desc="default-value expressions never raise", stubs=["mypy -> shim"]),
